@@ -156,7 +156,7 @@ def run_one(args: Tuple[str, Dict[str, Any]]) -> Dict[str, Any]:
         except Exception:   # noqa
             return dict(s, status="survived", verdict="checker-crash", detail=(r2.stderr or r2.stdout)[-300:])
         for pid, (v, u) in res.items():
-            fired += ["%s:%s" % (pid, x) for x in v if not (pid == "C08" and x == "R08.6" and v.count("R08.6") == 1)]
+            fired += ["%s:%s" % (pid, x) for x in v if not (pid in ("C01", "C03", "C08", "C09") and x == "R08.6" and v.count("R08.6") == 1)]
             unknown += ["%s:%s" % (pid, x) for x in u]
         verdict = "reported" if fired else ("analysis-error" if unknown else "silent")
         return dict(s, status="survived", verdict=verdict, fired=sorted(set(fired))[:12], unknown=sorted(set(unknown))[:6])
